@@ -101,18 +101,12 @@ def c29Step (_ : Unit) (op impl : String) : Unit × String × String :=
       let out := "|".intercalate ((Drain.run Drain.init arr).map ints)
       ((), out, if impl == out then "ok" else "viol:completion-drain-differs-from-model")
     | none => ((), "bad-op", "ok")
-  | ["twopass", sd] =>
-    if !sd.toNat?.isSome then ((), "bad-op", "ok") else
-    if impl == "bad-op" then ((), "-", "ok") else
-    match (if impl.startsWith "ev=" then ((impl.drop 3).toString.splitOn ",").mapM parseTok else none) with
-    | some l => ((), "-", judgeNoFailures [] l)
-    | none => ((), "-", "viol:unparseable-output")
   | [k, a, sd] =>
-    if !((k == "routerdl" || k == "idlewriter") && sd.toNat?.isSome) then ((), "bad-op", "ok") else
+    if !((k == "routerdl" || k == "idlewriter" || k == "twopass") && sd.toNat?.isSome) then ((), "bad-op", "ok") else
     match a.toNat? with
     | none => ((), "bad-op", "ok")
     | some n =>
-      if (k == "routerdl" && n > 2) || (k == "idlewriter" && (n < 1 || n > 100)) then ((), "bad-op", "ok") else
+      if (k == "routerdl" && n > 2) || (k == "idlewriter" && (n < 1 || n > 100)) || (k == "twopass" && n > 1) then ((), "bad-op", "ok") else
       if impl == "bad-op" then ((), "-", "ok") else
       match (if impl.startsWith "ev=" then ((impl.drop 3).toString.splitOn ",").mapM parseTok else none) with
       | some l => ((), "-", judgeNoFailures (if k == "routerdl" then [1] else []) l)
